@@ -78,6 +78,10 @@
                         if mid.value() != Some(id) || payload.downcast_ref::<u32>() != Some(&4242) {
                             return Some(("panic-reported-with-the-panicking-model-and-payload", "C11", format!("run #{}: model {} panicked with payload 4242; reported model {:?}, payload is the original: {}", ri, id, mid.value(), payload.downcast_ref::<u32>() == Some(&4242))));
                         }
+                        // ... but the enclosing executor is: its handler may catch the nested run's error and go on
+                        if channel::THREAD_MSG_COUNT.get() != outer {
+                            return Some(("enclosing-executor-count-preserved", "C06", format!("run #{}: model {} panicked in the nested run; the enclosing executor had {} message(s) in flight before the nested run and {} after it", ri, id, outer, channel::THREAD_MSG_COUNT.get())));
+                        }
                         return None; // a panicking executor is not used again
                     }
                     (Some(id), other) => {
